@@ -74,7 +74,8 @@ class RootLinearOperator(LinearOperator):
         self: Float[LinearOperator, "*batch M N"], other: Union[float, torch.Tensor]
     ) -> Float[LinearOperator, "*batch M N"]:
         if (other > 0).all():
-            res = self.__class__(self.root._mul_constant(other.sqrt()))
+            # keyword arguments of subclasses (CholLinearOperator: upper) must survive the rebuild
+            res = self.__class__(self.root._mul_constant(other.sqrt()), **self._kwargs)
         else:
             res = super()._mul_constant(other)
         return res
